@@ -234,6 +234,12 @@ fn pick(fam: &dyn Family, ad: &Addrs, pred: impl Fn(&Program, &ModelOut) -> bool
             return p;
         }
     }
+    // the start states are built on the subject: when it has already been caught deviating (the
+    // violation is recorded), a start state of the wanted shape may not exist - go on with the first
+    // program, the run ends with the violations it has
+    if VIOLATIONS_SEEN.load(std::sync::atomic::Ordering::Relaxed) > 0 {
+        return fam.program(0, ad);
+    }
     machinery_error("no program satisfies the start-state predicate");
 }
 
